@@ -101,11 +101,13 @@ impl Iterator for Chunks {
 
     fn next(&mut self) -> Option<Self::Item> {
         let mut chunk = None;
+        // The chunk size is an upper bound, reserve no more than the iterator is known to provide
+        let capacity = self.chunk_size.min(self.iter.size_hint().0);
 
         for output in self.iter.clone().take(self.chunk_size) {
             match KValue::try_from(output) {
                 Ok(value) => chunk
-                    .get_or_insert_with(|| Vec::with_capacity(self.chunk_size))
+                    .get_or_insert_with(|| Vec::with_capacity(capacity))
                     .push(value),
                 Err(error) => return Some(Output::Error(error)),
             }
@@ -1003,9 +1005,11 @@ impl Windows {
         if window_size < 1 {
             Err(WindowsError::WindowSizeMustBeAtLeastOne)
         } else {
+            // The window size is an upper bound, reserve no more than the iterator is known to provide
+            let capacity = window_size.min(iter.size_hint().0);
             Ok(Self {
                 iter,
-                cache: VecDeque::with_capacity(window_size),
+                cache: VecDeque::with_capacity(capacity),
                 window_size,
             })
         }
